@@ -139,3 +139,47 @@ impl Manager {
         Ok(())
     }
 }
+
+// ---- PeerIdRegistry::consume_new_id_inner (peer_id_registry.rs): the loop body for one registered id ---------------------
+// backs the ASSUMED contract of `consume_new_id_for_existing_path` above: an id is handed out only if its status is
+// `New`, it becomes `InUse` (both statuses are active, so the set of active ids does not change), and the id returned
+// is that entry's id.  The loop header (`for id_info in self.registered_ids.iter_mut()`) is a declared drop; `is_active`
+// of the registry (`iter().any(..)`) is still an assumed contract.
+#[derive(Clone, Copy)]
+pub struct TokenX { pub a: u64, pub b: u64 }
+#[derive(Clone, Copy)]
+pub struct InternalIdX { pub v: u64 }
+pub struct ResetMapX { pub inserted: Ghost<int> }
+impl ResetMapX {
+    #[verifier::external_body]
+    pub fn insert(&mut self, token: TokenX, id: InternalIdX) ensures final(self).inserted@ == old(self).inserted@ + 1 { unimplemented!() }
+}
+pub struct GuardX { pub stateless_reset_map: ResetMapX }
+pub struct LockResultX { pub dummy: u8 }
+impl LockResultX {
+    #[verifier::external_body]
+    pub fn expect(self, msg: &'static str) -> (r: GuardX) { unimplemented!() }
+}
+pub struct SharedStateX { pub dummy: u8 }
+impl SharedStateX {
+    #[verifier::external_body]
+    pub fn lock(&self) -> (r: LockResultX) { unimplemented!() }
+}
+pub struct PeerIdInfoFull { pub id: PeerId, pub status: PeerIdStatus, pub stateless_reset_token: Option<TokenX> }
+pub struct PeerIdRegistryFull { pub state: SharedStateX, pub internal_id: InternalIdX }
+impl PeerIdRegistryFull {
+    fn consume_new_id_inner_loop_body(&mut self, id_info: &mut PeerIdInfoFull) -> (ret: Option<PeerId>)
+        ensures
+            // only an unused id is consumed, it becomes InUse, and it is the id that is returned
+            ret is Some <==> old(id_info).status == PeerIdStatus::New,
+            ret is Some ==> final(id_info).status == PeerIdStatus::InUse && ret->Some_0 == old(id_info).id,
+            ret is None ==> final(id_info).status == old(id_info).status,
+            final(id_info).id == old(id_info).id,
+            // the entry's activity does not change (New and InUse are both active)
+            (final(id_info).status == New || final(id_info).status == InUse || final(id_info).status == InUsePendingNewConnectionId)
+                == (old(id_info).status == New || old(id_info).status == InUse || old(id_info).status == InUsePendingNewConnectionId),
+    {
+//@ splice-stmts quic/s2n-quic-transport/src/connection/peer_id_registry.rs "PeerIdRegistry" consume_new_id_inner "from=for id_info in self" inner=1
+        None
+    }
+}
